@@ -318,6 +318,22 @@ def run(ctx):
         ctx.ob("R-C17.4", wc, "worker-decrements-counter-on-stop", ok, "a worker leaving its loop on the stop path decrements active_thread_counter" if ok else "a worker can stop without decrementing active_thread_counter (drop would wait forever)")
         ctx.ob("R-C17.4", wc, "worker-decrements-counter-on-failure", oke, "a worker leaving its loop because worker_tick failed decrements active_thread_counter" if oke
                else "a worker whose tick fails (I/O error in flush/compaction/rotation) returns without decrementing active_thread_counter: DatabaseInner::drop then waits forever for a thread that has already exited")
+    if wc:
+        # "after the last handle is dropped ... the journal is synced": the journal's final sync runs in the Drop of the last
+        # Arc<Journal>, and each worker holds one (WorkerState.supervisor). DatabaseInner::drop returns once the counter is 0,
+        # so a worker must let go of its state BEFORE it decrements: the decrement (guard drop / fetch_sub) is the last
+        # thing the thread body does — no drop of captured / moved worker state may follow it.
+        dec2 = list(dec) if 'dec' in dir() else []
+        later = []
+        for d in dec2:
+            for x in A.reach_after(wc, d):
+                t = wc.blocks[x]["t"]
+                if t["k"] == "drop" and not wc.blocks[x]["cleanup"] and any(k_ in t.get("ty", "") for k_ in ("WorkerState", "Supervisor", "PoisonDart", "Journal")):
+                    later.append((d, x, t.get("ty", "")))
+        ctx.ob("R-C17.4", wc, "worker-releases-its-state-before-the-counter-drops", bool(dec2) and not later,
+               "the thread-counter decrement is the last drop of the worker body: the worker's Supervisor clone (and with it the journal) is released before DatabaseInner::drop can return" if (dec2 and not later)
+               else "the worker decrements active_thread_counter and only THEN drops %s: DatabaseInner::drop can return while a worker still holds the last Arc<Journal>, whose final sync then happens after the database drop returned (observed: 1 of 2,200 drops under strace)" % (later[0][2] if later else "its state"),
+               wc.loc(later[0][1]) if later else "")
     ws = ctx.fn("worker_pool::WorkerPool::start", "R-C17.4")
     if ws:
         fa = [b for b, t in ws.calls() if A.cname(t) == "std::sync::atomic::Atomic::<usize>::fetch_add"]
